@@ -34,7 +34,7 @@ var Seeds = []Seed{
 	{"revsuffixset", `.*\.(txt|log|md)`}, {"revsuffixset", `.*(foo|bar)`},
 	{"revinner", `\w+@\w+`}, {"revinner", `.*@.*`}, {"revinner", `.*keyword.*`},
 	{"mlrevsuffix", `(?m)^.*\.php`}, {"mlrevsuffix", `(?m)^/.*\.php`},
-	{"teddy", `abc|abd`}, {"teddy", `abc|xyz`}, {"teddy", `foo|bar|baz`}, {"teddy", `(foo|bar)x`}, {"teddy", `(?i)foo`},
+	{"teddy", `cab|ate`}, {"teddy", `abx|bcd`}, {"teddy", `abc|abd`}, {"teddy", `abc|xyz`}, {"teddy", `foo|bar|baz`}, {"teddy", `(foo|bar)x`}, {"teddy", `(?i)foo`},
 	{"digit", `\d+\.\d+`}, {"digit", `\d+\.\d+\.\d+`},
 	{"misc", `(a|ab)(c|bcd)(d*)`}, {"misc", `(a*)+`}, {"misc", `(a|b)*?c`}, {"misc", `\B$`}, {"misc", `^(?:\w|@|$)ab`},
 	{"misc", `\W{2}`}, {"misc", `.*\n`}, {"misc", `(?s).*a`}, {"misc", `\d{1,3}\.\d{1,3}`}, {"misc", `[a-z]+ing`},
